@@ -53,7 +53,8 @@ class C19:
     ]
     assumptions = [
         'the wrapped function is a plain Python function of n positional parameters that does not raise',
-        'map_/filter_/setcol parts of C19 are covered by the DataMatrix core checks (see level_note)',
+        'map_, filter_ and setcol are compared with a plain-Python reference on tables in six row orders (probes); their '
+        'theorems are the positional take / frame theorems of the core (C01, C06), not restated here',
     ]
 
     def _run(self, n, paths):
@@ -93,6 +94,8 @@ class C19:
         return observed, pyfail
 
     def rerun(self, inp):
+        if 'probe' in inp:
+            return self.probe(inp['probe'], inp['seed'])
         n, paths = inp['n'], inp['paths']
         observed, pyfail = self._run(n, paths)
         o_parts, m_parts = [], []
@@ -111,8 +114,112 @@ class C19:
             'tags': inp.get('tags', []) + ['arity%d' % n],
         }
 
+    # ---- map_, filter_, setcol: direct probes against a plain-Python reference -------------------
+    def _table(self, sub):
+        import warnings
+        from datamatrix import DataMatrix, FloatColumn, IntColumn, operations as ops
+        n = sub.randint(0, 7)
+        dm = DataMatrix(length=n)
+        dm.u = list(range(n))
+        dm.a = [sub.choice([1, 2, 3, 2.5, 'x', 'y', None, -1]) for _ in range(n)]
+        dm.f = FloatColumn
+        dm.f = [sub.choice([0, 1, 2, 2.5, -1, float('nan')]) for _ in range(n)]
+        dm.i = IntColumn
+        dm.i = [sub.randint(-2, 3) for _ in range(n)]
+        order = sub.choice(['natural', 'sorted', 'shuffled', 'selected', 'deleted', 'regrown'])
+        if order == 'sorted':
+            dm = ops.sort(dm, by=dm.i)
+        elif order == 'shuffled':
+            dm = ops.shuffle(dm)
+        elif order == 'selected':
+            dm = dm.i >= 0
+            _ = dm.a[dm]
+        elif order == 'deleted' and n:
+            del dm[sub.randrange(n)]
+        elif order == 'regrown':
+            dm = dm.i >= 0
+            dm.length = len(dm) + 2
+        return dm, order
+
+    def _snap(self, dm):
+        return [(nm, type(c).__name__, [repr(v) for v in c], c.dm is dm, c.name) for nm, c in dm.columns] + [len(dm)]
+
+    def probe(self, kind, seed):
+        import random as _random
+        import warnings
+        from datamatrix import functional as fnc, DataMatrix
+        sub = _random.Random(seed)
+        _random.seed(seed)
+        problem = None
+        with warnings.catch_warnings():
+            warnings.simplefilter('ignore')
+            try:
+                dm, order = self._table(sub)
+                before = self._snap(dm)
+                eqv = lambda a, b: [repr(x) for x in a] == [repr(x) for x in b]
+                if kind == 'filter_col':
+                    name = sub.choice(['a', 'f', 'i'])
+                    k = sub.choice([0, 1, 2])
+                    # (numeric columns hand NumPy scalars to f, so f must not test for the builtin types)
+                    f = (lambda x: x >= k) if (sub.random() < 0.5 and name != 'a') else (lambda x: x == k)
+                    got = list(fnc.filter_(f, dm[name]))
+                    want = [v for v in dm[name] if f(v)]
+                    if not eqv(got, want):
+                        problem = 'filter_(f, col %s) on a %s table: %r, expected %r' % (name, order, got, want)
+                elif kind == 'filter_dm':
+                    k = sub.choice([0, 1, 2])
+                    f = lambda **d: d['i'] >= k
+                    r = fnc.filter_(f, dm)
+                    want = [u for u, i in zip(dm.u, dm.i) if i >= k]
+                    if list(r.u) != want or r.column_names != dm.column_names or not all(c.dm is r for _n, c in r.columns):
+                        problem = 'filter_(f, dm) on a %s table: rows %r, expected %r' % (order, list(r.u), want)
+                elif kind == 'map_col':
+                    name = sub.choice(['a', 'f', 'i'])
+                    f = lambda x: x if (x is None or isinstance(x, str)) else x * 2
+                    got = list(fnc.map_(f, dm[name]))
+                    want = [f(v) for v in dm[name]]
+                    if not eqv(got, want) and not (name != 'a' and all((g == w) or (g != g and w != w) for g, w in zip(got, want)) and len(got) == len(want)):
+                        problem = 'map_(f, col %s) on a %s table: %r, expected %r' % (name, order, got, want)
+                    got2 = list(dm[name] @ f)
+                    if [repr(x) for x in got2] != [repr(x) for x in got]:
+                        problem = 'col @ f differs from map_(f, col)'
+                elif kind == 'map_dm':
+                    f = lambda **d: {'i': d['i'] + 1, 'z': d['u'] * 10}
+                    r = fnc.map_(f, dm)
+                    if list(r.i) != [i + 1 for i in dm.i] or (len(dm) and list(r.z) != [u * 10 for u in dm.u]) \
+                            or list(r.u) != list(dm.u) or not eqv(list(r.a), list(dm.a)) or 'z' in dm:
+                        problem = 'map_(f, dm) on a %s table: i=%r z=%r' % (order, list(r.i), list(r.z))
+                elif kind == 'setcol':
+                    which = sub.choice(['scalar', 'list', 'column', 'column_f'])
+                    value = {'scalar': 5, 'list': list(range(100, 100 + len(dm))), 'column': dm.a, 'column_f': dm.f}[which]
+                    tgt = sub.choice(['z', 'a', 'i'])
+                    r = fnc.setcol(dm, tgt, value)
+                    ref = dm[:]
+                    # dm[name] = dm.col binds the name to that column; in the copy: to the copy's column
+                    ref[tgt] = ref[value.name] if which.startswith('column') else value
+                    gotv, wantv = [repr(v) for v in r[tgt]], [repr(v) for v in ref[tgt]]
+                    others_same = all([repr(v) for v in r[nm]] == [repr(v) for v in dm[nm]] for nm in dm.column_names if nm != tgt)
+                    if gotv != wantv or not others_same or len(r) != len(dm):
+                        problem = 'setcol(dm, %r, %s) on a %s table: %r, expected %r' % (tgt, which, order, gotv, wantv)
+                    if which.startswith('column') and (value.dm is not dm or value.name not in ('a', 'f')):
+                        problem = 'the column passed to setcol no longer belongs to dm (owner %r, name %r)' % (value.dm is dm, value.name)
+                    if len(r):
+                        r[tgt][0] = 77
+                        if which.startswith('column') and self._snap(dm) != before:
+                            problem = 'writing to the setcol result changed the original'
+                if problem is None and self._snap(dm) != before:
+                    problem = '%s modified its argument' % kind
+            except Exception as e:      # noqa: BLE001
+                problem = 'probe %s raised %r' % (kind, e)
+        return {'input': {'probe': kind, 'seed': seed}, 'observed': {'problem': problem}, 'pyfail': problem,
+                'oracle': 'true', 'model': 'true', 'nontrivial': True, 'sig': 'probe|%s|%d' % (kind, seed),
+                'tags': ['probe', 'probe:' + kind]}
+
     def generate(self, rng, tier):
         cases = []
+        for kind in ('filter_col', 'filter_dm', 'map_col', 'map_dm', 'setcol'):
+            for _ in range(40 if tier == 'quick' else 400):
+                cases.append(self.probe(kind, rng.randrange(1 << 30)))
         ctr = [0]
 
         def args(k):
@@ -163,12 +270,16 @@ class C19:
         return cases
 
     def shrink_candidates(self, inp):
+        if 'probe' in inp:
+            return
         paths = inp['paths']
         for i in range(len(paths)):
             if len(paths) > 1:
                 yield {'n': inp['n'], 'paths': paths[:i] + paths[i + 1:], 'tags': inp.get('tags', [])}
 
     def key(self, case):
+        if 'probe' in case['input']:
+            return 'probe %s' % case['input']['probe']
         return 'curry n=%d paths=%s' % (case['input']['n'], json_compact(case['input']['paths']))
 
 
